@@ -1,5 +1,4 @@
 package main
 
-func ruleF3(c *Ctx, id string) {}
 func ruleF4(c *Ctx, id string) {}
 func ruleS3(c *Ctx, id string) {}
